@@ -91,7 +91,8 @@ def cases(draw):
         for w in prior["words"]:
             if w["l"] in "IJ" and w["v"] is not None and abs(w["v"]) > 500:
                 w["t"], w["v"] = "2.5", 2.5
-    return {"part": "handler", "code": code, "words": ws, "prior": prior,
+    return {"part": "handler", "code": code, "words": ws, "prior": prior, "debug": draw(st.integers(0, 3)) == 0,
+            "many": draw(st.sampled_from([0] * 40 + [530, 1100])),
             "rel": draw(st.integers(0, 3)) == 0, "inch": draw(st.integers(0, 3)) == 0,
             "lowcode": draw(st.integers(0, 5)) == 0}
 
@@ -149,7 +150,22 @@ def run_case(case, strict=False):  # pylint: disable=unused-argument,too-many-br
 
     code = case["code"]
     cl.add(code)
-    flt = core.DirectFilter({}, [])
+    flt = core.DirectFilter({"debug": bool(case.get("debug"))}, [])
+    if case.get("debug"):
+        cl.add("debug_logging")
+    if case.get("many"):
+        # a long print before: the command under test once, then hundreds of distinct other commands on the same handlers / parser
+        cl.add("after_many_commands")
+        try:
+            for c in ("G28", "G1 X10 Y20 Z3 E4 F1500"):
+                flt.gcode(c)
+            flt.handlers.handleGcode((case["code"].lower() if case.get("lowcode") else case["code"]) + render(words), case["code"], None)
+            for n in range(case["many"]):
+                flt.gcode("G1 X%d.%02d Y%d F%d" % (n % 50, n % 100, n // 50, 1000 + n))
+            flt.gcode("G90")
+            flt.gcode("G21")
+        except Exception:  # pylint: disable=broad-except
+            pass
     if case.get("prior"):
         cl.add("prior_command")
         for c in ("G28", "G1 X10 Y20 Z3 E4 F1500"):
